@@ -21,6 +21,8 @@ def gen_comp(rng, max_pins=3, kind="random"):
 
 
 def nports(desc, ch):
+    if "empty" in ch:
+        return 0
     return ch["leaf"]["n"] if "leaf" in ch else len(desc["defs"][ch["sub"]]["expo"])
 
 
@@ -76,7 +78,9 @@ def build_all(desc):
         sts = []
         with lk.Solver(name=f"def{k}") as S:
             for ch in d["children"]:
-                if "leaf" in ch:
+                if "empty" in ch:
+                    sts.append(lk.Model().put())
+                elif "leaf" in ch:
                     sts.append(netlib.comp_model(ch["leaf"]).put())
                 else:
                     sts.append(built[ch["sub"]][0].put())
@@ -120,7 +124,12 @@ def instantiate(desc):
         d = desc["defs"][k]
         terms, ports = [], []
         for ch in d["children"]:
-            if "leaf" in ch:
+            if "empty" in ch:
+                i = counter[0]
+                counter[0] += 1
+                terms.append(f"HLeaf {cnat(i)} 0%nat []")
+                ports.append([])
+            elif "leaf" in ch:
                 i = counter[0]
                 counter[0] += 1
                 comp = ch["leaf"]
